@@ -101,7 +101,7 @@ CHECKS["C01"] = dict(
          "regenerated from the source on every run: ListProxy/DictProxy override every inserting entry point of list/dict. "
          "Correspondence: random schemas x histories (assignment by dotted path and chained attributes of values, maps, configuration "
          "objects; load_tree; validate; reset; to_tree) with full-state comparison after every step, plus re-validation of every "
-         "readable value by its own field and a mutation stream over every list/dict mutator."
+         "readable value by its own field, a mutation stream over every list/dict mutator, and a boundary sweep (every value derived from a field's declared bounds, exactly at and just beyond them, strings whose length changes under the declared transformations, through five routes) judged by a declarative reading of the declaration."
          " Continuation (Props/C01b.lean): every reachable state satisfies the constraints its fields *declare* (Sat, written from the declaration, not through the validator) — soundness of validation composed with the invariant over histories.",
     note=CFG_NOTE + " Values of AnyField / untyped containers are unconstrained. The table of inserting entry points of list/dict is trusted.",
     technique="Lean 4 proof (case analysis and induction over the operation model; decide over generated method sets) + model/implementation correspondence",
@@ -251,12 +251,21 @@ CHECKS["C13"] = dict(
          "one hypothesis, AllDeep, is discharged by a decide obligation over the translator's table of how each __setdefault__ of the "
          "current source hands a mutable default over; witnesses show alias and shallow copies break every conclusion. Correspondence: "
          "random schema tables x histories over two to four roots on the real library vs the model (deep observations of every root and "
-         "every default after every step) plus the direct oracle of the property on the implementation, field sets and options included.",
-    note="Model hand-written (Cinco/Heap/Model.lean), tied by histories; the copy discipline per field class is read off the source "
-         "syntactically (harness/extract.py default_disciplines). Schemas are immutable in the model by construction; the real schema's "
-         "field table and field options are observed per step. Operations use fresh arguments: a value read from one configuration and "
-         "assigned to another is shared by ordinary Python semantics and is outside the stream (DESIGN.md 13.3).",
-    technique="Lean 4 proof (ownership / separation invariant by induction over histories, frame lemma) + translator-generated decide obligation + model/implementation correspondence",
+         "every default after every step) plus the direct oracle of the property on the implementation, field sets and options included. "
+         "Continuation (Props/C13b.lean, Heap/Transfer.lean): a typed container handed from one configuration to another "
+         "(assignment of the other's proxy, load of its rendered tree) is a further step of the model; in its guarded form it preserves "
+         "the invariant, is invisible through every other root including the giver, reads back what the giver held, and every frame "
+         "theorem applies to any history after it; witnesses show all of this failing when the inner containers are adopted. Which form "
+         "the source has is a second decide obligation over the translator's table of proxy fast paths (each must test the identity of "
+         "the owning configuration). A transfer stream (every route x every container kind x every level mutated afterwards) is the "
+         "direct oracle; it found F37.",
+    note="Model hand-written (Cinco/Heap/Model.lean, Heap/Transfer.lean), tied by histories; the copy discipline per field class and the "
+         "guard of every proxy fast path are read off the source syntactically (harness/extract.py default_disciplines, proxy_fast_paths). "
+         "Schemas are immutable in the model by construction; the real schema's field table and field options are observed per step. "
+         "Values that carry no validation (items of untyped containers and AnyFields, configuration objects moved between lists) keep "
+         "the identity of what the application hands over, by ordinary Python semantics, and are outside the stream; in-place merges "
+         "(update / extend / |= / +=) from another configuration's proxy are modelled as an assignment of the merged plain value.",
+    technique="Lean 4 proof (ownership / separation invariant by induction over histories, frame lemma) + two translator-generated decide obligations + model/implementation correspondence",
     design="6 C13")
 PENDING = ["C01", "C02", "C03", "C04", "C05", "C06", "C07", "C08", "C09", "C10", "C11", "C12", "C13", "C14", "C15", "C16",
            "C17", "C19", "C20"]
